@@ -6,13 +6,18 @@
 patch=$(realpath "$1"); shift
 wt=$(mktemp -d /tmp/trymut_XXXXXX)
 git -C /repo worktree add -q --detach "$wt" HEAD || exit 2
-git -C /repo diff HEAD | git -C "$wt" apply 2>/dev/null    # carry /repo's uncommitted state, if any
+# carry /repo's uncommitted state, if any, as a scratch commit on the detached HEAD of the scratch worktree (so that the
+# three-way application of the seeded change below starts from a clean index)
+if ! git -C /repo diff --quiet HEAD; then
+  git -C /repo diff HEAD | git -C "$wt" apply 2>/dev/null
+  git -C "$wt" -c user.email=scratch@localhost -c user.name=scratch commit -qam "scratch: uncommitted state of /repo" 2>/dev/null
+fi
 cleanup() { git -C /repo worktree remove --force "$wt" 2>/dev/null; rm -rf "$wt"; }
 trap cleanup EXIT
 cd "$wt" || exit 2
 git apply --3way "$patch" >/dev/null 2>&1; git reset -q
 if git diff | grep -q '^[+ ]<<<<<<<'; then echo "CONFLICT applying $patch"; exit 3; fi
-if git diff --quiet; then echo "PATCH DID NOT APPLY: $patch"; exit 3; fi
+if git diff --quiet HEAD; then echo "PATCH DID NOT APPLY: $patch"; exit 3; fi
 for c in "$@"; do
   (cd /verif && PYTHONPATH="$wt/src" VERIF_SCRATCH_OUT="${TRYMUT_OUT:-$wt/.out}" ./check $c --no-proof 2>&1 | grep -v "^KNOWN\|it/s" | tail -4)
 done
